@@ -16,6 +16,13 @@ cargo test --offline -p kyrodb-engine --test "$name" 2>&1 | grep -E "^test resul
 rm -f "engine/tests/$name.rs"
 if [ "$SUITE" = "yes" ]; then
   echo "== $D: full suite with patch"
-  cargo nextest run --workspace --no-fail-fast --offline --test-threads 8 2>&1 | grep -E "Summary|^\s+FAIL" | sort -u | head -6
+  cargo nextest run --workspace --no-fail-fast --offline --test-threads 8 > "$WT/suite_seed.log" 2>&1
+  grep -E "Summary|^\s+FAIL" "$WT/suite_seed.log" | sort -u | head -8
+  # wall-clock-sensitive tests fail while the machine is loaded: re-run every failed test alone
+  failed=$(grep -E "^\s+FAIL" "$WT/suite_seed.log" | awk '{print $NF}' | sort -u)
+  if [ -n "$failed" ]; then
+    echo "== $D: failed tests re-run alone (one thread)"
+    cargo nextest run --workspace --no-fail-fast --offline --test-threads 1 $failed 2>&1 | grep -E "Summary|^\s+FAIL" | sort -u | head -8
+  fi
 fi
 git checkout -q -- . ; git clean -fdq -e target
